@@ -17,7 +17,6 @@ use crate::rec::*;
 
 pub const NAMES: [&str; 6] = ["op", "op {x}", "", "fetch user", "a", "span name with spaces and {holes}"];
 pub const MDLS: [&str; 5] = ["m", "app::a", "app::b::c", "x_y", "verif"];
-pub const KEYS: [&str; 6] = ["a", "b", "c", "k0", "k1", "user_id"];
 
 pub const K_CUSTOM: u8 = 0;
 pub const K_DEFAULT: u8 = 1;
@@ -127,12 +126,20 @@ fn idx(i: u8, len: usize) -> usize {
 }
 
 fn props_box(ps: &[(u8, i8)]) -> PropsBox {
-    let v: Box<[(&'static str, i64)]> = ps.iter().map(|(k, v)| (KEYS[idx(*k, KEYS.len())], *v as i64)).collect();
+    let v: Box<[(&'static str, emit::Value<'static>)]> = ps.iter().map(|(k, v)| (key_of(*k), val_of(*k, *v).value())).collect();
     Box::new(v)
 }
 
 fn props_model(ps: &[(u8, i8)]) -> Vec<(String, String)> {
-    ps.iter().map(|(k, v)| (KEYS[idx(*k, KEYS.len())].to_string(), (*v as i64).to_string())).collect()
+    ps.iter().map(|(k, v)| kv_model(*k, *v)).collect()
+}
+
+fn kv_model(k: u8, v: i8) -> (String, String) {
+    (key_of(k).to_string(), val_of(k, v).text())
+}
+
+fn first_of<'a>(props: &'a [(String, String)], key: &str) -> Option<&'a str> {
+    props.iter().find(|(k, _)| k == key).map(|(_, v)| v.as_str())
 }
 
 /// One completion type for every completion the case uses; instances differ by `id`.
@@ -189,6 +196,8 @@ impl Completion for Comp {
             use emit::event::ToEvent;
             let evt = span.to_event();
             self.st.record(self.id, false, &evt);
+            self.st.add_views(span_views(&span));
+            self.st.add_span_name(span.name().to_string());
         }
     }
 }
@@ -214,15 +223,31 @@ struct Observed {
 
 const COMPLETE_WITH_ID: u32 = 10_000;
 
+/// Every keyed view of `key` on the completed event must give `want`.
+fn keyed(cx: &mut Cx, r: &Rec, key: &str, want: Option<&str>, sig: &str, what: &str) -> Res {
+    if let Err((view, got)) = r.all_views_give(key, want) {
+        cx.fail(
+            sig,
+            format!("keyed lookup of `{key}` on the completed event ({view}) gives {got:?}; {what} is {want:?}; the event enumerates {:?}", r.props),
+        )?;
+    }
+    Ok(())
+}
+
 pub fn check_api(c: &CaseA, cx: &mut Cx) -> Res {
     let st = St::new(c.filter.clone(), FilterSpec::AcceptAll, c.clock.clone(), c.rng_avail, c.rng_seed as u64);
     // "passed the filter" = the filter's verdict on the span's START event (first evaluation): no level, no
     // extent, no err, template "{span_name} started"
+    // ... carrying the span's name, kind and the properties it was constructed with: a property called `lvl` / `err`
+    // is the level / error the filter sees; a property called `span_name` / `evt_kind` does not rename or re-kind it
+    let init_user = props_model(&c.init_props);
     let start_feat = Feat {
-        lvl: None,
+        lvl: first_of(&init_user, "lvl").and_then(|s| s.parse::<emit::Level>().ok()),
         has_extent: false,
-        has_err: false,
+        has_err: first_of(&init_user, "err").is_some(),
         tpl: "{span_name} started".to_string(),
+        is_span: true,
+        name: Some(NAMES[idx(c.init_name, NAMES.len())].to_string()),
     };
     let verdict = c.filter.verdict(&start_feat, 0);
     let terminal_phase = c.ops.len() as u32 + 1;
@@ -241,14 +266,28 @@ pub fn check_api(c: &CaseA, cx: &mut Cx) -> Res {
     let mut n_starts = 0;
     let mut n_with_completion = 0;
     let mut builder_ops = 0;
+    // provenance of every entry of `m.props`: (0 given to new / 1 with_props / 2 map_props, with_name called afterwards)
+    let mut prov: Vec<(u8, bool)> = c.init_props.iter().map(|_| (0, false)).collect();
     for (i, op) in c.ops.iter().enumerate() {
         let phase = i as u32 + 1;
         match op {
             Op::WithMdl(x) => m.mdl = MDLS[idx(*x, MDLS.len())].to_string(),
-            Op::WithName(x) => m.name = NAMES[idx(*x, NAMES.len())].to_string(),
-            Op::WithProps(ps) => m.props = props_model(ps),
-            Op::MapAppend(k, v) => m.props.push((KEYS[idx(*k, KEYS.len())].to_string(), (*v as i64).to_string())),
-            Op::MapPrepend(k, v) => m.props.insert(0, (KEYS[idx(*k, KEYS.len())].to_string(), (*v as i64).to_string())),
+            Op::WithName(x) => {
+                m.name = NAMES[idx(*x, NAMES.len())].to_string();
+                prov.iter_mut().for_each(|p| p.1 = true);
+            }
+            Op::WithProps(ps) => {
+                m.props = props_model(ps);
+                prov = ps.iter().map(|_| (1, false)).collect();
+            }
+            Op::MapAppend(k, v) => {
+                m.props.push(kv_model(*k, *v));
+                prov.push((2, false));
+            }
+            Op::MapPrepend(k, v) => {
+                m.props.insert(0, kv_model(*k, *v));
+                prov.insert(0, (2, false));
+            }
             Op::WithCompletion(spec) => {
                 m.comp_id = phase;
                 m.comp = spec.clone();
@@ -287,6 +326,34 @@ pub fn check_api(c: &CaseA, cx: &mut Cx) -> Res {
     cx.class_if(completes && m.comp.kind % 4 == K_DEFAULT, "A:default-completion");
     cx.class_if(completes && m.comp.kind % 4 >= K_RT_OK, "A:result-hook-completion");
     cx.class_if(completes, "A:completing");
+    // properties whose keys collide with emit's well-known keys
+    let collides_own = m.props.iter().any(|(k, _)| is_own_key(k));
+    let collides_head = m.props.iter().any(|(k, _)| k == "lvl" || k == "err");
+    let collides_ids = m.props.iter().any(|(k, _)| is_id_key(k));
+    // where the colliding property came from, and whether the span was renamed after it was installed
+    let own_prov: Vec<(u8, bool)> = m.props.iter().zip(&prov).filter(|((k, _), _)| is_own_key(k)).map(|(_, p)| *p).collect();
+    let own_at_new = own_prov.iter().any(|p| p.0 == 0);
+    let own_by_with_props = own_prov.iter().any(|p| p.0 == 1);
+    let own_by_map_props = own_prov.iter().any(|p| p.0 == 2);
+    let renamed_after_own = own_prov.iter().any(|p| p.1);
+    if completes {
+        cx.class_if(collides_own, "collide:own-key(span_name/evt_kind)");
+        cx.class_if(m.props.iter().any(|(k, _)| k == "span_name"), "collide:span_name");
+        cx.class_if(m.props.iter().any(|(k, _)| k == "evt_kind"), "collide:evt_kind");
+        cx.class_if(collides_own && own_at_new, "collide:own-key/given-to-new");
+        cx.class_if(collides_own && own_by_with_props, "collide:own-key/by-with_props");
+        cx.class_if(collides_own && own_by_map_props, "collide:own-key/by-map_props");
+        cx.class_if(collides_own && renamed_after_own, "collide:own-key/then-with_name");
+        cx.class_if(collides_own && m.comp.kind % 4 == K_CUSTOM, "collide:own-key/custom-completion");
+        cx.class_if(collides_own && m.comp.kind % 4 == K_DEFAULT, "collide:own-key/default-completion");
+        cx.class_if(collides_own && m.comp.kind % 4 >= K_RT_OK, "collide:own-key/result-hook-completion");
+        cx.class_if(collides_head, "collide:lvl-or-err");
+        cx.class_if(collides_head && panic_exit && m.comp.kind % 4 == K_DEFAULT, "collide:lvl-or-err/panic-exit");
+        cx.class_if(collides_ids, "collide:id-key");
+        cx.class_if(m.props.iter().any(|(k, _)| is_reserved_key(k) && !is_own_key(k) && !is_id_key(k) && k != "lvl" && k != "err"), "collide:metadata-key");
+    }
+    cx.class_if(c.init_props.iter().any(|(k, _)| is_own_key(key_of(*k))), "collide:own-key-on-start-event");
+    cx.class_if(matches!(c.filter, FilterSpec::SpanKindOnly), "A:kind-filter");
     cx.nontrivial((builder_ops >= 2 && n_with_completion > 0) || !verdict || n_starts >= 2 || panic_exit);
 
     // ---- run the real thing -----------------------------------------------------------------------
@@ -319,11 +386,11 @@ pub fn check_api(c: &CaseA, cx: &mut Cx) -> Res {
                     Op::WithName(x) => g.with_name(NAMES[idx(*x, NAMES.len())]),
                     Op::WithProps(ps) => g.with_props(props_box(ps)),
                     Op::MapAppend(k, v) => {
-                        let kv = (KEYS[idx(*k, KEYS.len())], *v as i64);
+                        let kv = (key_of(*k), val_of(*k, *v).value());
                         g.map_props(move |p| Box::new(p.and_props(kv)) as PropsBox)
                     }
                     Op::MapPrepend(k, v) => {
-                        let kv = (KEYS[idx(*k, KEYS.len())], *v as i64);
+                        let kv = (key_of(*k), val_of(*k, *v).value());
                         g.map_props(move |p| Box::new(kv.and_props(p)) as PropsBox)
                     }
                     Op::WithCompletion(spec) => g.with_completion(Comp::new(phase, &st, spec)),
@@ -475,9 +542,28 @@ pub fn check_api(c: &CaseA, cx: &mut Cx) -> Res {
     vassert_eq!(cx, r.recorder, m.comp_id, "wrong-completion", "completion ran on recorder (0 = initial, n = with_completion at op n, 10000 = complete_with)");
     vassert_eq!(cx, r.phase, terminal_phase, "completed-early", "completion ran during op/phase");
     vassert_eq!(cx, r.mdl, m.mdl, "span-mdl-mismatch", "module of the completed span");
+    // name and kind are the span's own whatever its properties are called: by enumeration (the first entry of a
+    // key is the one that counts) ...
     vassert_eq!(cx, r.prop("span_name").map(|s| s.to_string()), Some(m.name.clone()), "span-name-mismatch", "name of the completed span");
-    vassert!(cx, r.kind_is_span, "span-kind-missing", "completed span does not carry evt_kind=span: {:?}", r.props);
-    vassert_eq!(cx, r.user_props(), m.props, "span-props-mismatch", "properties of the completed span");
+    vassert!(cx, r.prop("evt_kind") == Some("span") && r.kind_is_span, "span-kind-missing", "completed span does not carry evt_kind=span: {:?}", r.props);
+    // ... and by keyed lookup (get / pull, generic and erased, through And chains, the kind filters, Span::name())
+    keyed(cx, r, "span_name", Some(m.name.as_str()), "span-name-mismatch/keyed-lookup", "the span's name")?;
+    keyed(cx, r, "evt_kind", Some("span"), "span-kind-mismatch/keyed-lookup", "the span's kind")?;
+    vassert_eq!(cx, r.name_pulled, Some(m.name.clone()), "span-name-mismatch/keyed-lookup", "pull::<Str>(\"span_name\") on the completed event (enumeration: {:?})", r.props);
+    vassert!(
+        cx,
+        r.span_filter_matches && !r.metric_filter_matches,
+        "span-kind-mismatch/keyed-lookup",
+        "kind filters on the completed span event: is_span_filter matches={} is_metric_filter matches={} (enumeration: {:?})",
+        r.span_filter_matches,
+        r.metric_filter_matches,
+        r.props
+    );
+    if let Some(n) = &r.span_name_accessor {
+        vassert_eq!(cx, *n, m.name, "span-name-mismatch", "Span::name() seen by the completion");
+    }
+    // the span's properties: all of them, in order, duplicates included, whatever their keys
+    vassert_eq!(cx, r.user_props_given(&m.props), m.props, "span-props-mismatch", "properties of the completed span (enumeration {:?})", r.props);
 
     // extent
     let start = st.readings(m.start_phase.unwrap());
@@ -493,15 +579,23 @@ pub fn check_api(c: &CaseA, cx: &mut Cx) -> Res {
     // panic / level clauses (only emit's default completion adds them)
     vassert_eq!(cx, r.panicking, panic_exit, "harness/panicking-flag", "thread::panicking() at completion");
     let kind = m.comp.kind % 4;
+    // a span property called `lvl` / `err` (the first one counts) shows through where the completion assigns none
+    let user_lvl = first_of(&m.props, "lvl").and_then(|s| s.parse::<emit::Level>().ok());
+    let user_err = first_of(&m.props, "err");
+    // what the completion itself assigns; it takes precedence over same-named span properties
+    let mut head: Vec<(&str, String)> = Vec::new();
     if kind == K_RT_OK || kind == K_RT_ERR {
         vassert!(cx, r.via_emitter, "harness/route", "result completion did not go through the emitter");
         let lvl = m.comp.lvl.map(|l| LEVELS[idx(l, 4)]);
         if kind == K_RT_OK {
-            vassert_eq!(cx, r.lvl, lvl, "ok-level-mismatch", "level of a span completed through the Ok completion");
-            vassert!(cx, r.prop("err").is_none(), "unexpected-err", "span completed through the Ok completion carries err: {:?}", r.props);
+            // no level configured: a span property called `lvl` is the only level there is
+            vassert_eq!(cx, r.lvl, lvl.or(user_lvl), "ok-level-mismatch", "level of a span completed through the Ok completion");
+            vassert_eq!(cx, r.prop("err"), user_err, "unexpected-err", "err of a span completed through the Ok completion (only a span property called err may be there): {:?}", r.props);
+            head = lvl.map(|l| ("lvl", l.to_string())).into_iter().collect();
         } else {
             vassert_eq!(cx, r.lvl, Some(lvl.unwrap_or(emit::Level::Error)), "err-level-mismatch", "level of a span completed through the Err completion");
             vassert_eq!(cx, r.prop("err"), Some("a-err"), "err-missing", "err of a span completed through the Err completion");
+            head = vec![("lvl", lvl.unwrap_or(emit::Level::Error).to_string()), ("err", "a-err".to_string())];
         }
         vassert_eq!(cx, r.tpl.as_str(), RT_TPL, "template-mismatch", "template of a span completed through a Result completion");
     }
@@ -526,29 +620,78 @@ pub fn check_api(c: &CaseA, cx: &mut Cx) -> Res {
         if panic_exit {
             let want = b.last_panic_lvl().unwrap_or(emit::Level::Error);
             vassert_eq!(cx, r.lvl, Some(want), "panic-level-mismatch", "level of a span completed by unwinding (completion::Default built with {:?})", b.builder);
-            vassert!(cx, r.prop("err").is_some(), "panic-err-missing", "span completed by unwinding carries no err: {:?}", r.props);
+            // the error the unwinding adds, not a span property that happens to be called err
+            let n_err = r.props.iter().filter(|(k, _)| k == "err").count();
+            let n_user_err = m.props.iter().filter(|(k, _)| k == "err").count();
+            vassert!(cx, n_err > n_user_err, "panic-err-missing", "span completed by unwinding carries no err of its own: {:?}", r.props);
+            head = vec![("lvl", want.to_string()), ("err", r.prop("err").unwrap_or("").to_string())];
         } else {
-            vassert_eq!(cx, r.lvl, b.last_lvl(), "level-mismatch", "level of a normally completed span (completion::Default built with {:?})", b.builder);
-            vassert!(cx, r.prop("err").is_none(), "unexpected-err", "normally completed span carries err: {:?}", r.props);
+            vassert_eq!(cx, r.lvl, b.last_lvl().or(user_lvl), "level-mismatch", "level of a normally completed span (completion::Default built with {:?})", b.builder);
+            vassert_eq!(cx, r.prop("err"), user_err, "unexpected-err", "err of a normally completed span (only a span property called err may be there): {:?}", r.props);
+            head = b.last_lvl().map(|l| ("lvl", l.to_string())).into_iter().collect();
         }
+    }
+
+    // keyed lookup of every other key: what the completion assigns, else the span's first property of that name,
+    // else (ids) the span context of the frame, else nothing
+    for key in KEYS {
+        if is_own_key(key) {
+            continue;
+        }
+        let from_head = head.iter().find(|(k, _)| *k == key).map(|(_, v)| v.as_str());
+        let from_user = first_of(&m.props, key);
+        if is_id_key(key) && kind != K_CUSTOM {
+            // a property named like an id key next to the frame's span context: both are carried (checked by
+            // enumeration); which of them a keyed lookup answers is not stated
+            if from_user.is_some() {
+                cx.dont_care();
+            }
+            continue;
+        }
+        let sig = if key == "lvl" || key == "err" { "level-or-err-mismatch/keyed-lookup" } else { "span-props-mismatch/keyed-lookup" };
+        keyed(cx, r, key, from_head.or(from_user), sig, "what the completion assigns, else the span's first property of that name,")?;
     }
 
     // ids: when completed inside its frame the ambient context carries the ids the span was created with
     if c.inside_frame {
         let seen = st.filter_seen.borrow().first().copied();
-        if let Some((t, s)) = seen {
+        let hex_t = r.cur_trace.map(|t| format!("{:032x}", t));
+        let hex_s = r.cur_span.map(|s| format!("{:016x}", s));
+        if init_user.iter().any(|(k, _)| is_id_key(k)) {
+            // the span was constructed with a property named like an id key: what the filter's keyed lookup of
+            // that key answered is open; the ids the span was created with are those among the id entries the
+            // filter was shown (by enumeration) that are not that property
+            let shown: Vec<(String, String)> = st.filter_seen_ids.borrow().first().cloned().unwrap_or_default();
+            let created = |key: &str| shown.iter().find(|(k, v)| k == key && !is_generated_id_val(v)).map(|(_, v)| v.clone());
+            let (t, s) = (created("trace_id"), created("span_id"));
+            if c.rng_avail {
+                vassert!(cx, t.is_some() && s.is_some(), "ids-not-generated", "rng available but the span was created with trace={:?} span={:?}", t, s);
+            }
+            vassert_eq!(cx, (hex_t.clone(), hex_s.clone()), (t, s), "ids-missing-at-completion", "ids in the ambient context at completion vs ids the span was created with");
+            cx.class("collide:id-key-on-start-event");
+        } else if let Some((t, s)) = seen {
             if c.rng_avail {
                 vassert!(cx, t.is_some() && s.is_some(), "ids-not-generated", "rng available but span ctxt has trace={:?} span={:?}", t, s);
             }
             vassert_eq!(cx, (r.cur_trace, r.cur_span), (t, s), "ids-missing-at-completion", "ids in the ambient context at completion vs ids the span was created with");
-            if kind != K_CUSTOM && t.is_some() {
+        }
+        if seen.is_some() {
+            if kind != K_CUSTOM && r.cur_trace.is_some() {
+                // carried: some trace_id / span_id entry of the event is the id of the frame
+                let has = |key: &str, want: &Option<String>| r.props.iter().any(|(k, v)| k == key && Some(v) == want.as_ref());
                 vassert!(
                     cx,
-                    r.prop("trace_id").is_some() && r.prop("span_id").is_some(),
+                    has("trace_id", &hex_t) && has("span_id", &hex_s),
                     "ids-missing-on-event",
-                    "event emitted by the default completion inside the frame lacks ids: {:?}",
+                    "event emitted by the default completion inside the frame lacks its ids ({:?} {:?}): {:?}",
+                    hex_t,
+                    hex_s,
                     r.props
                 );
+                if !collides_ids {
+                    keyed(cx, r, "trace_id", hex_t.as_deref(), "ids-missing-on-event/keyed-lookup", "the id of the frame")?;
+                    keyed(cx, r, "span_id", hex_s.as_deref(), "ids-missing-on-event/keyed-lookup", "the id of the frame")?;
+                }
             }
         } else {
             cx.fail("filter-not-consulted", "SpanGuard::new did not consult the filter".to_string())?;
